@@ -111,8 +111,32 @@ def _cvc5_check(text, timeout_ms, produce_model=False):
 
 
 def _work(task):
-    name, text, z3_ms, cvc5_ms, both = task
+    name, text, z3_ms, cvc5_ms, both = task[:5]
+    prefer = task[5] if len(task) > 5 else None
     res = {"name": name, "backends": []}
+    if prefer == "cvc5":
+        # contracts whose obligations (quantifiers over sequences of records) z3 cannot do in any budget, while cvc5
+        # answers at once: cvc5 goes first with its full budget; z3 only gets a short confirmation slice
+        try:
+            st2, dt2, md2, why2 = _cvc5_check(text, cvc5_ms, produce_model=False)
+        except Exception as e:
+            st2, dt2, md2, why2 = "unknown", 0.0, None, "cvc5 error: %r" % (e,)
+        res["backends"].append({"solver": "cvc5", "status": st2, "time_s": round(dt2, 4), "why": why2})
+        if st2 == "proved":
+            by = "cvc5"
+            if both:
+                try:
+                    stz, dtz, mdz, whyz = _z3_check(text, z3_ms, attempts=((0, 3000),))
+                except Exception as e:
+                    stz, dtz, mdz, whyz = "unknown", 0.0, None, "z3 error: %r" % (e,)
+                res["backends"].append({"solver": "z3", "status": stz, "time_s": round(dtz, 4), "why": whyz})
+                if stz == "refuted":
+                    res.update({"status": "undecided", "by": "z3/cvc5 disagree", "model": None})
+                    return res
+                if stz == "proved":
+                    by = "z3+cvc5"
+            res.update({"status": "proved", "by": by, "model": None})
+            return res
     # portfolio: (A) z3, short slice -- decides the bulk; (B) cvc5, short -- on quantified obligations over sequences it
     # often answers `unsat` in milliseconds where z3 needs minutes; (C) z3 with the full budget and a second seed;
     # (D) cvc5 with its full budget.  `refuted` is only taken from z3 (its model feeds the replay) unless z3 stays unknown.
@@ -256,7 +280,7 @@ def robust_map(fn, items, procs, on_crash, limit_memory=True, second_chance=None
 def _work_safe(task):
     """second chance for a query whose worker process died (z3 ran out of memory): cvc5 with its full budget, then z3 for
     a short slice only"""
-    name, text, z3_ms, cvc5_ms, both = task
+    name, text, z3_ms, cvc5_ms, both = task[:5]
     res = {"name": name, "backends": [{"solver": "z3", "status": "unknown", "time_s": 0.0, "why": "solver process died (memory limit); retried in safe mode"}]}
     try:
         st2, dt2, md2, why2 = _cvc5_check(text, cvc5_ms, produce_model=False)
